@@ -29,11 +29,11 @@ def run_impl(lines):
 
 
 def model_line(l):
-    return "0 |" if l.startswith("101 ") else l
+    return "0 |" if l.startswith(("101 ", "102 ")) else l
 
 
 def compare(l, impl_rows, model_rows):
-    if l.startswith("101 "):
+    if l.startswith(("101 ", "102 ")):
         return True          # behavioural direct-vs-opaque runs: decided by the implementation-side monitor alone
     return impl_rows == model_rows
 
@@ -49,8 +49,9 @@ def known_match(kf, l, fails):
 def gen_cases(rng, tier):
     a, d1 = G.ir_cases(rng, tier)
     b, d2 = G.shapes_cases(rng.fork("more"), "thorough" if tier == "thorough" else tier)
-    d1.update(d2)
-    return a + b, d1
+    e, d4 = G.generic_cases(rng.fork("generic"), tier)
+    d1.update(d2); d1.update(d4)
+    return a + b + e, d1
 
 
 def monitor(l, impl_rows, kv):
